@@ -96,6 +96,11 @@ pub fn main(args: &[String]) -> i32 {
                     fft::interpolate_poly(&mut w, &inv_tw);
                     ev.push(json!({"ev": "interpolate", "fn": "interpolate_poly", "n": n, "offset": 1, "vals": ints(&vals), "out": ints(&w),
                                    "chk": chk_indices(n, &mut rng, full_upto)}));
+                    // the offset variant with offset 1 must agree with it
+                    let mut w1 = vals.clone();
+                    fft::interpolate_poly_with_offset(&mut w1, &inv_tw, Toy::ONE);
+                    ev.push(json!({"ev": "interpolate", "fn": "interpolate_poly_with_offset", "n": n, "offset": 1, "vals": ints(&vals), "out": ints(&w1),
+                                   "chk": chk_indices(n, &mut rng, full_upto)}));
                 } else {
                     fft::interpolate_poly_with_offset(&mut w, &inv_tw, offset);
                     ev.push(json!({"ev": "interpolate", "fn": "interpolate_poly_with_offset", "n": n, "offset": offset.v(), "vals": ints(&vals),
